@@ -118,7 +118,7 @@ def run_case(case, rep, record=True):
                 o, _ = hA.reset()
                 concrete.append(("reset", None, None))
                 ref_steps.append(dict(obs=np.asarray(o).tobytes()))
-            elif op[0] in ("g", "o"):
+            elif op[0] in ("g", "o", "b"):
                 continue
             else:
                 act = hA.choose(op)
@@ -303,7 +303,7 @@ def model_run(case, with_foreign, build_y=None):
             if with_foreign:
                 for fop in (sched[i] if i < len(sched) else []):
                     do_foreign(fop, fstate, build_y, scnX)
-            if op[0] == "g":
+            if op[0] in ("g", "b"):
                 continue
             res = walk.run_history(h, [tuple(op)], on_rec, None, both_sides=False, do_gen=False)
             if h.flat:
